@@ -106,6 +106,10 @@ class Facts:
         if d.get("crate") != "happylock":
             raise FactsError("fact file is not for crate happylock")
         self.raw = d
+        self.consts = {}
+        for c in d.get("consts", []):
+            bits = int(c["bits"])
+            self.consts[c["path"]] = bool(bits) if c["ty"].get("name") == "bool" else bits
         self.adts = {a["path"]: a for a in d["adts"]}
         self.traits = {t["path"]: t for t in d["traits"]}
         self.impls = d["impls"]
